@@ -79,6 +79,7 @@ class World(object):
         mod = importlib.import_module('adb_shell.constants')
         if not mod.__file__.startswith(repo):
             raise RuntimeError('constants imported from %s, not from %s' % (mod.__file__, repo))
+        dsl.CONSTANTS = mod
         return mod
 
     def use(self, axiom):
@@ -144,12 +145,14 @@ class World(object):
         """Adapt an argument to a declared parameter type (list literal -> cmdset, int -> real, T -> opt[T])."""
         typ = typ.strip()
         if typ == 'cmdset' and isinstance(v, (VList, VTuple)):
-            arr = z3.K(Bytes, z3.BoolVal(False))
+            from .values import CMD_UNIVERSE
+            members = set()
             for it in v.items:
-                if not isinstance(it, VBytes):
-                    raise Unsupported('cmdset element %r' % (it,))
-                arr = z3.Store(arr, it.term, z3.BoolVal(True))
-            return VCmdSet(arr)
+                c = it.concrete() if isinstance(it, VBytes) else None
+                if c is None or c not in CMD_UNIVERSE:
+                    raise Unsupported('cmdset element %r is not a literal protocol id' % (it,))
+                members.add(c)
+            return VCmdSet({c: z3.BoolVal(c in members) for c in CMD_UNIVERSE})
         if typ == 'real' and isinstance(v, VInt):
             return VReal(z3.ToReal(v.term))
         if typ.startswith('opt[') and isinstance(v, VInt) and typ[4:-1] == 'real':
@@ -894,8 +897,7 @@ class World(object):
     def cmdset_union(self, ex, a, b):
         a = self.coerce(ex, a, 'cmdset')
         b = self.coerce(ex, b, 'cmdset')
-        x = z3.Const('__x', Bytes)
-        return VCmdSet(z3.Lambda([x], z3.Or(z3.Select(a.arr, x), z3.Select(b.arr, x))))
+        return VCmdSet({k: z3.Or(a.bits[k], b.bits[k]) for k in a.bits})
 
     def spec_lambda(self, ex, node):
         raise Unsupported('lambda in contract')
@@ -1357,13 +1359,18 @@ def _spec_args(ex, node):
 
 def sp_old(w, ex, node):
     with ex._Old(ex, ex.old_snap, dict(ex.env, **{k: v for k, v in ex.old_env.items()})):
-        saved = ex.env.get('G')
-        return ex.eval(node.args[0])
+        v = ex.eval(node.args[0])
+        if isinstance(v, VObj):
+            v = VObj(v.cls, dict(v.fields), name=v.name + '@old')      # a frozen copy of the object's old state
+        return v
 
 
 def sp_implies(w, ex, node):
-    a, b = _spec_args(ex, node)
-    return VBool(z3.Implies(truth(a), truth(b)))
+    a = truth(ex.eval(node.args[0]))
+    if z3.is_false(z3.simplify(a)):
+        return VBool(True)          # the consequent may not even be well-typed here (e.g. val(None)[0])
+    b = ex.eval(node.args[1])
+    return VBool(z3.Implies(a, truth(b)))
 
 
 def sp_iff(w, ex, node):
@@ -1372,8 +1379,12 @@ def sp_iff(w, ex, node):
 
 
 def sp_ite(w, ex, node):
-    c, a, b = _spec_args(ex, node)
-    return merge(truth(c), a, b)
+    c = z3.simplify(truth(ex.eval(node.args[0])))
+    if z3.is_true(c):
+        return ex.eval(node.args[1])
+    if z3.is_false(c):
+        return ex.eval(node.args[2])
+    return merge(c, ex.eval(node.args[1]), ex.eval(node.args[2]))
 
 
 def sp_le32(w, ex, node):
